@@ -71,6 +71,20 @@ BARE_OK = ("xml", "soap11", "soap12", "json", "yaml", "msgpack")
 SOAPENV = {"soap11": "http://schemas.xmlsoap.org/soap/envelope/",
            "soap12": "http://www.w3.org/2003/05/soap-envelope"}
 OTHER_NS = "urn:other"
+# foreign namespaces, incl. ones adversarially close to the target namespace
+OTHER_FORMS = ("other-ns", "other-ns:ext", "other-ns:path", "other-ns:cut", "other-ns:case")
+
+
+def other_ns(form, tns):
+    if form == "other-ns:ext":
+        return tns + "2"
+    if form == "other-ns:path":
+        return tns + ":v2"
+    if form == "other-ns:cut":
+        return tns[:-1]
+    if form == "other-ns:case":
+        return tns.swapcase()
+    return OTHER_NS
 NAME_RE = re.compile(r"^[A-Za-z_][A-Za-z0-9_.\-]*$")
 STEMS = ["m0", "get", "a.b", "a_b", "a-b", "Item", "op.x"]
 
@@ -127,7 +141,7 @@ def relation(a, b):
 def how_differs(req, form, actual):
     """how the requested string differs from the public name of the function that ran
     (root-cause granularity for signatures: independent of how the string was derived)"""
-    if form == "other-ns" and req == actual:
+    if form.startswith("other-ns") and req == actual:
         return "other-namespace"
     if req == actual:
         return "same"
@@ -352,7 +366,8 @@ def plan_requests(spec, ref):
                 continue                       # not an XML name
             add(kind, v, "plain", sh, n)
         if not many or (i + rot) % 3 == 0:
-            add("other-ns", n, "other-ns", sh, n)
+            for of in (OTHER_FORMS if not many else OTHER_FORMS[(i + rot) % 5::5] + ("other-ns",)):
+                add(of, n, of, sh, n)
         if fam in XMLFAM and (not many or (i + rot) % 3 == 1):
             cf = n.swapcase()
             if cf != n and NAME_RE.match(cf):
@@ -398,7 +413,8 @@ def expectation(spec, ref, r, tns):
         verb = r.get("verb", "GET")
         path = r.get("path")
         if path is None:
-            seg = name if r["form"] != "other-ns" else "{%s}%s" % (OTHER_NS, name)
+            seg = name if not r["form"].startswith("other-ns") else \
+                "{%s}%s" % (other_ns(r["form"], tns), name)
             path = "/" + seg
         e = ref.http_expect(verb, path)
         if r["kind"] == "tns-qualified" and e[0] == "none":
@@ -406,7 +422,7 @@ def expectation(spec, ref, r, tns):
             if e2[0] == "run":
                 return ("maybe",) + e2[1:]
         return e
-    if r["form"] == "other-ns":
+    if r["form"].startswith("other-ns"):
         return ("none",)
     if r["kind"] == "tns-qualified":
         e = ref.lookup(r["src"])
@@ -434,7 +450,7 @@ def encode(spec, r, tns):
             open_, close = "<%s>" % name, "</%s>" % name
             child = "<a>%s</a>"
         else:
-            ns = OTHER_NS if r["form"] == "other-ns" else tns
+            ns = other_ns(r["form"], tns) if r["form"].startswith("other-ns") else tns
             open_, close = '<x:%s xmlns:x="%s">' % (name, ns), "</x:%s>" % name
             child = "<x:a>%s</x:a>"
         if sh["arg"] is None:
@@ -447,8 +463,8 @@ def encode(spec, r, tns):
         if fam != "xml":
             body = '<e:Envelope xmlns:e="%s"><e:Body>%s</e:Body></e:Envelope>' % (SOAPENV[fam], body)
         return body.encode("utf8")
-    if r["form"] == "other-ns":
-        name = "{%s}%s" % (OTHER_NS, name)
+    if r["form"].startswith("other-ns"):
+        name = "{%s}%s" % (other_ns(r["form"], tns), name)
     if fam == "http":
         # 'a=7' is a valid query for methods without argument, with an Integer and with a Unicode
         # argument alike: a misrouted request then shows as the wrong function running
